@@ -2,7 +2,7 @@
 from ..rules import delivery, flow
 from .common import declare
 
-RULES = ['META-PASS', 'META-FLAT', 'PAIRED-BUFFER', 'META-MEMBERS', 'FRESH-READ', 'STATE-PER-INSTANCE', 'FIFO-END']
+RULES = ['META-PASS', 'META-FLAT', 'PAIRED-BUFFER', 'META-MEMBERS', 'FRESH-READ', 'STATE-PER-INSTANCE', 'FIFO-END', 'SWAP-ATOMIC']
 FLOORS = {'META-PASS': 10, 'META-FLAT': 20, 'PAIRED-BUFFER': 12}
 
 META = {
@@ -28,6 +28,8 @@ def run(ctx, R):
     # a metadata buffer shared between instances, or taken from the wrong end, delivers metadata with the wrong data
     R.run(delivery.check_state_per_instance, ctx, R, core)
     R.run(delivery.check_fifo_end, ctx, R, core)
+    # a metadata buffer that is reset only after the emission loses / misattributes the metadata of elements that arrive meanwhile
+    R.run(delivery.check_swap_atomic, ctx, R, core)
 
 
 META['level'] += ' FRESH-READ: the metadata (and data) an emission is built from is read after the last store into its container on the path.'
